@@ -27,7 +27,8 @@ check("C18", "exploration",
       "Complete configuration product, each a real CLI run of src/lian/main.py (lang) in a scratch tree with sentinel "
       "files: 10 (thorough 13) placements of -w relative to the input (disjoint, inside, equal, parent, symlink, relative, "
       "omitted, custom name containing the default name, deep inside, sibling prefix, ...) x --force x file/dir input x "
-      "pre-existing foreign workspace content. Oracle: full filesystem snapshot diff (type, size, sha256, mode, link "
+      "pre-existing foreign workspace content, plus placement x {input spelled through a symlinked ancestor, input spelled "
+      "relative to cwd with one / three leading '..', cwd named like the default workspace, forced-then-incremental history}. Oracle: full filesystem snapshot diff (type, size, sha256, mode, link "
       "target): nothing outside the effective workspace changes or appears, nothing inside disappears without --force, "
       "bytes created <= 3 x (matching input + mock externs) + 1 MB, exit within 90 s without traceback.",
       "Real processes and a real filesystem (tmpfs scratch). The effective workspace rule (<-w>/lian_workspace unless the "
@@ -154,8 +155,8 @@ check("C08", "exploration",
       "entry point of the real semantic pipeline: every concrete value of every definition of x / y on every execution path "
       "(reference GIR interpreter, all decision vectors) must be matched by an equal state value or an unknown state. (b) complete "
       "product of a hostile literal alphabet (quotes, backslash, operator / conditional / format fragments, 9**9**9, "
-      "__import__(...), long run) x 7 contexts (concatenation left/right/twice, comparison, repetition, passed through a call, stored "
-      "in a field): the result must be the literal's text as data, an unrelated definition must keep its baseline value, the run must "
+      "__import__(...), long run) x 11 contexts (concatenation left/right/twice/chained, comparison, repetition, passed through a call, stored "
+      "in a field, digit strings whose text equals the operands of the unrelated integer fold evaluated before / after it): the result must be the literal's text as data, an unrelated definition must keep its baseline value, the run must "
       "end normally and the work counter stay within x2 of the baseline.",
       "Primitive integer values of entry-level variables only; objects are covered through field reads. Escape sequences kept "
       "undecoded in a state value still count as data.",
@@ -210,7 +211,7 @@ check("C13", "exploration",
       "Complete sweep of 16 adversarial program families - direct recursion, mutual-recursion ring, higher-order self application, "
       "cyclic import ring, cyclic object graph, loops nested n deep, call chains with 1/2/3 call sites per function, many call sites, "
       "hostile constants (9**9**9, p**q**q, 1<<99999999), long strings, deep parenthesisation, string repetition - x n in {1,2,4,8} "
-      "(thorough 16) x p2 on/off through the real `run` pipeline in forked children with a CPU budget (60 s; thorough 150 s). "
+      "(thorough 16; mutual rings also 16/24/40 and cyclic imports 16 in both tiers, termination only) x p2 on/off through the real `run` pipeline in forked children with a CPU budget (60 s; thorough 150 s). "
       "Oracle: finishes within the budget without unhandled exception, and the deterministic work counter (compute_stmt_states "
       "calls) grows with exponent <= 4 on the largest doubling.",
       "A bounded sweep cannot prove polynomial growth for all programs: it decides termination within budget for everything "
@@ -231,7 +232,7 @@ check("C14", "exploration",
 check("C15", "model_checking",
       "Part A: explicit-state BFS on the real Loader for 10 bundle-backed result families (GIR, scope hierarchy, CFG, "
       "bit vectors, stmt status, symbol/state space, symbol graph, defined/used symbols, parameter mapping, decl ids): "
-      "all histories over save(i,A|B)/get(i)/export+indexing/restore-into-fresh-loader to depth 4 (thorough 5), x item-cache "
+      "all histories over save(i,A|B)/get(i)/export+indexing/export-indexing alone/restore-into-fresh-loader to depth 4 (thorough 5), x item-cache "
       "x bundle-cache capacity x MAX_ROWS (1 forces one bundle per save), then every get and an export+restore+get-all "
       "probe in every reached state; A/B are real objects harvested from a real analysis; real feather files in a scratch "
       "workspace. Part B: recorded real histories - 3 programs x p2 on/off x capacity/row-limit configurations with every "
@@ -254,8 +255,9 @@ check("C16", "model_checking",
       "explicit-state BFS on the implementation vs reference model", "DESIGN.md §2 C16")
 
 check("C17", "model_checking",
-      "Complete enumeration on the real EventManager: every registration list of <=3 handlers over 7 language-set "
-      "forms (list/str/set, incl. a str 'javascript' that must not match 'java' by substring) x 8 return values x "
+      "Complete enumeration on the real EventManager: every registration list of <=3 handlers over 10 language-set "
+      "forms (list/str/set, incl. a str 'javascript' that must not match 'java' by substring, the empty set which matches no "
+      "language, and the omitted argument = any language) x 8 return values x "
       "writes-out_data, through register and register_list, x 3 event languages; two-kind/unknown-kind products; "
       "thorough adds all 4-handler lists over a reduced return set. Every notify is compared with a 15-line dispatch "
       "model: which handlers ran in which order, the in_data each saw, final out_data, combined return. Plus the real "
@@ -267,8 +269,8 @@ check("C17", "model_checking",
 check("C20", "exploration",
       "Complete product: 2 (thorough 4) generated multi-file projects (functions f/g/h/helper in files with and without top-level "
       "code, one source->sink flow in an uncalled function, one in a called helper, one at top level) x every entry-rule set of "
-      "size <=2 from a 10-rule alphabet (unit initialiser, names, name lists, lang match/mismatch, unit_name, unit_path, attrs, a "
-      "second *-entry.yaml file) plus the empty set, each through the real `run` pipeline. Oracle: rule-matching model -> expected "
+      "size <=2 from a 12-rule alphabet (unit initialiser, names, name lists, lang match/mismatch, unit_name, unit_path, attrs, a "
+      "second *-entry.yaml file, rules without a method list selecting every method of the matched units) plus the empty set, each through the real `run` pipeline. Oracle: rule-matching model -> expected "
       "start set == recorded entry points; every selected method analysed even if uncalled; nothing outside the call closure of "
       "the starts analysed; flows(R) == union of flows({e}); flows(empty) == empty.",
       "Small scope (two/three files, five method names). File names chosen so that equality / suffix / substring readings of "
